@@ -24,6 +24,7 @@ Line protocol of C01 (see harness/cmd/vh/c01.go):
                   worksheet: <sheetData> afterwards (model: SaveBook.styleRect = writeCell with setStyle over the rectangle)
   sstseq n1 {hex} n2 {hex}  SetCellStr on A1.., save+open, SetCellStr on the next cells: shared-string index of every
                   cell and the table (model: SaveSst.setCellString, SaveSst.opened)
+  mergeseq n {x1 y1 x2 y2} MergeCell calls (corners in any order) on a new worksheet; answer = the stored merged-range list (SaveMerge.mergeCell)
   hmerge n {c1 r1 c2 r2} the stored merged-range list of a worksheet before a real save; answer = the stored list after
                   OpenReader (model: SaveMerge.normalize = flatMergedCells)
   hbook <book>    sheet list / visibility / active tab / merged ranges / defined names of a generated workbook
@@ -341,6 +342,11 @@ def step (w : List String) : String :=
   | "hmerge" :: n :: g => match n.toNat? with
     | some n => match parseRects n g with
       | some l => "ok " ++ showRects (SaveMerge.normalize l)
+      | none => "bad-op"
+    | none => "bad-op"
+  | "mergeseq" :: n :: g => match n.toNat? with
+    | some n => match parseRects n g with
+      | some l => "ok " ++ showRects (l.foldl (fun acc m => SaveMerge.mergeCell acc m.c1 m.r1 m.c2 m.r2) [])
       | none => "bad-op"
     | none => "bad-op"
   | "hbook" :: g => stepBook g
